@@ -7,6 +7,7 @@ package main
 import (
 	"fmt"
 	"strings"
+	"sync"
 
 	"github.com/vmware/go-ipfix/pkg/entities"
 	"github.com/vmware/go-ipfix/pkg/registry"
@@ -79,6 +80,233 @@ func genC02(env *Env) string {
 	return strings.Join(parts, " ")
 }
 
+// ---- histories on reused set objects and shared / changed element objects ----
+
+// histB assembles a history and keeps count of the set objects (S events) and of the element
+// object pool entries (A operations) it has made so far.
+type histB struct {
+	parts  []string
+	nS, nA int
+}
+
+func (h *histB) add(s string) { h.parts = append(h.parts, s) }
+func (h *histB) String() string { return strings.Join(h.parts, " ") }
+
+// varLen: the element is variable-length (its value decides its encoded length).
+func varLen(s IESpec) bool {
+	dt := entities.IEDataType(s.DT)
+	return dt == entities.String || (dt == entities.OctetArray && s.Len == 65535)
+}
+
+// valueOfLen: a well-typed value; for a variable-length element one of n content bytes.
+func valueOfLen(r *Rng, s IESpec, n int) string {
+	if varLen(s) {
+		if entities.IEDataType(s.DT) == entities.String {
+			return "str " + patArg(r, n)
+		}
+		return "oct " + patArg(r, n)
+	}
+	return wfValue(r, s)
+}
+
+func (t tplG) addWith(r *Rng, vals []string) string {
+	var sb strings.Builder
+	fmt.Fprintf(&sb, "A %s %d %d", randForm(r), t.id, len(t.specs))
+	for i, s := range t.specs {
+		sb.WriteString(" " + s.String() + " " + vals[i])
+	}
+	return sb.String()
+}
+
+func nonEmptyTpl(r *Rng, id, n int) tplG {
+	t := genTpl(r, id, n)
+	allZero := true
+	for _, s := range t.specs {
+		if s.Len != 0 {
+			allZero = false
+		}
+	}
+	if allZero {
+		t.specs = append(t.specs, IESpec{uint16(1 + r.Intn(30000)), uint8(entities.Unsigned16), 0, 2})
+	}
+	return t
+}
+
+// genC02Reuse: one set object used for several messages - reset and prepared again (for the
+// same or another template, or as a template set), sent again unchanged, extended without a
+// reset - and the template set object itself sent again / turned into a data set.
+func genC02Reuse(env *Env) string {
+	r := env.Rng
+	h := &histB{}
+	h.add(histHead(r, "full", uint64(r.Intn(1000))))
+	t1 := nonEmptyTpl(r, 256+r.Intn(30000), 1+r.Intn(5))
+	t2 := nonEmptyTpl(r, 31000+r.Intn(30000), 1+r.Intn(5))
+	h.add(t1.tplSet(r)) // object 0
+	h.nS, h.nA = 1, 1
+	dataOps := func(t tplG, n int) string {
+		var p []string
+		for i := 0; i < n; i++ {
+			p = append(p, t.dataAdd(r, t.id, nil))
+			h.nA++
+		}
+		return strings.Join(p, " ")
+	}
+	// object 1: the application's data set object
+	h.add(fmt.Sprintf("S P D %d %s ;", t1.id, dataOps(t1, 1+r.Intn(3))))
+	h.nS++
+	known2 := false
+	steps := 2 + r.Intn(5)
+	for i := 0; i < steps; i++ {
+		switch k := r.Intn(10); {
+		case k < 4: // the usual cycle: ResetSet, PrepareSet, AddRecord.., SendSet
+			t := t1
+			if known2 && r.Bool() {
+				t = t2
+			}
+			h.add(fmt.Sprintf("C 1 R P D %d %s ;", t.id, dataOps(t, 1+r.Intn(3))))
+			env.Count("reuse/reset-data")
+		case k < 5: // the same object carries the next template
+			h.add(fmt.Sprintf("C 1 R P T %d %s ;", t2.id, t2.tplAdd(r)))
+			h.nA++
+			known2 = true
+			env.Count("reuse/reset-template")
+		case k < 6: // sent again as it is
+			h.add("C 1 ;")
+			env.Count("reuse/send-again")
+		case k < 7: // more records without a reset (data sets only make sense)
+			h.add(fmt.Sprintf("C 1 %s ;", t1.dataAdd(r, t1.id, nil)))
+			h.nA++
+			env.Count("reuse/append-no-reset")
+		case k < 8: // the template set object again
+			if r.Bool() {
+				h.add("C 0 ;")
+			} else {
+				h.add(fmt.Sprintf("C 0 R P D %d %s ;", t1.id, dataOps(t1, 1+r.Intn(2))))
+			}
+			env.Count("reuse/template-object")
+		case k < 9: // PrepareSet again without a reset
+			h.add(fmt.Sprintf("C 1 P D %d %s ;", t1.id, dataOps(t1, 1)))
+			env.Count("reuse/prepare-no-reset")
+		default: // reset twice / update length by hand
+			h.add(fmt.Sprintf("C 1 R R P D %d %s L ;", t1.id, dataOps(t1, 1+r.Intn(2))))
+			env.Count("reuse/reset-twice")
+		}
+	}
+	return h.String()
+}
+
+// genC02Shared: the application keeps its element objects, sets new values and adds them again
+// (both records then hold the same objects), possibly after GetBuffer / SendSet has already
+// encoded the first record; variable-length values keep, lose or gain octets.
+func genC02Shared(env *Env) string {
+	r := env.Rng
+	h := &histB{}
+	h.add(histHead(r, "full", uint64(r.Intn(1000))))
+	t := nonEmptyTpl(r, 256+r.Intn(60000), 1+r.Intn(5))
+	if r.Intn(3) != 0 {
+		// make sure a variable-length element is there most of the time
+		dt := entities.String
+		ln := -1
+		if r.Bool() {
+			dt, ln = entities.OctetArray, 65535
+		}
+		t.specs = append(t.specs, genSpec(r, dt, ln))
+	}
+	h.add(t.tplSet(r))
+	h.nS, h.nA = 1, 1
+	lens := make([]int, len(t.specs))
+	vals := make([]string, len(t.specs))
+	for i, s := range t.specs {
+		lens[i] = []int{0, 1, 2, 7, 20, 254, 255, 256}[r.Intn(8)]
+		vals[i] = valueOfLen(r, s, lens[i])
+	}
+	tag := h.nA
+	ops := []string{fmt.Sprintf("P D %d", t.id), t.addWith(r, vals)}
+	h.nA++
+	// what happens to the objects before they are added again
+	mutate := func(mode int) []string {
+		var m []string
+		for j, s := range t.specs {
+			if r.Intn(3) == 0 {
+				continue
+			}
+			n := lens[j]
+			if varLen(s) {
+				switch mode {
+				case 1: // shorter
+					if n > 0 {
+						n = r.Intn(n)
+					}
+				case 2: // longer
+					n = n + 1 + r.Intn(3)
+				case 3: // any
+					n = smallLen(r)
+				}
+			}
+			lens[j] = n
+			m = append(m, fmt.Sprintf("M %d %d %s", tag, j, valueOfLen(r, s, n)))
+		}
+		return m
+	}
+	mode := r.Intn(4)
+	env.Count([]string{"shared/same-length", "shared/shorter", "shared/longer", "shared/any-length"}[mode])
+	switch r.Intn(5) {
+	case 0: // set, add again, send
+		ops = append(ops, mutate(mode)...)
+		ops = append(ops, fmt.Sprintf("AS %s %d %d", randForm(r), t.id, tag))
+		h.add("S " + strings.Join(ops, " ") + " ;")
+	case 1: // the first record was already encoded (GetBuffer) when the values change
+		ops = append(ops, "G")
+		ops = append(ops, mutate(mode)...)
+		ops = append(ops, fmt.Sprintf("AS %s %d %d", randForm(r), t.id, tag))
+		h.add("S " + strings.Join(ops, " ") + " ;")
+		env.Count("shared/getbuffer-first")
+	case 2: // sent, values changed, sent again without a reset (cached), then the usual cycle
+		h.add("S " + strings.Join(ops, " ") + " ;")
+		h.add("C 1 " + strings.Join(mutate(mode), " ") + " ;")
+		h.add(fmt.Sprintf("C 1 R P D %d AS %s %d %d %s AS %s %d %d ;", t.id, randForm(r), t.id, tag,
+			strings.Join(mutate(0), " "), randForm(r), t.id, tag))
+		env.Count("shared/after-send")
+	case 3: // values changed after the add, nothing added again: the one record carries the new values
+		ops = append(ops, mutate(mode)...)
+		h.add("S " + strings.Join(ops, " ") + " ;")
+		h.add("C 1 ;")
+		env.Count("shared/changed-then-retry")
+	default: // two set objects holding the same element objects
+		h.add("S " + strings.Join(ops, " ") + " ;")
+		h.add(fmt.Sprintf("S P D %d AS %s %d %d %s ;", t.id, randForm(r), t.id, tag, strings.Join(mutate(mode), " ")))
+		h.add("C 1 ;")
+		env.Count("shared/two-sets")
+	}
+	return h.String()
+}
+
+// genC02Refresh: a UDP exporter with a refresh timeout of 1 s: 1-3 templates (one of them
+// possibly registered from a set with two records), some data, then the wait for the refresh.
+func genC02Refresh(env *Env) string {
+	r := env.Rng
+	parts := []string{fmt.Sprintf("udp %d %d full", r.U64()&0xffffffff, r.Intn(1000))}
+	n := 1 + r.Intn(3)
+	var tpls []tplG
+	for i := 0; i < n; i++ {
+		t := nonEmptyTpl(r, 256+i*1000+r.Intn(1000), 1+r.Intn(6))
+		tpls = append(tpls, t)
+		if i == 0 && r.Intn(3) == 0 {
+			t2 := nonEmptyTpl(r, 40000+r.Intn(1000), 1+r.Intn(3))
+			tpls = append(tpls, t2)
+			parts = append(parts, fmt.Sprintf("S P T %d %s %s ;", t.id, t.tplAdd(r), t2.tplAdd(r)))
+		} else {
+			parts = append(parts, t.tplSet(r))
+		}
+	}
+	for i := r.Intn(3); i > 0; i-- {
+		parts = append(parts, tpls[r.Intn(len(tpls))].dataSet(r, 1+r.Intn(3)))
+	}
+	parts = append(parts, "W")
+	env.Count(fmt.Sprintf("refresh/%d-templates", len(tpls)))
+	return strings.Join(parts, " ")
+}
+
 func runC02(env *Env) {
 	registry.LoadRegistry()
 	if replayHist(env, "C02") {
@@ -126,5 +354,43 @@ func runC02(env *Env) {
 	for i := 0; i < n; i++ {
 		emit(genC02(env))
 	}
-	_ = fmt.Sprint
+	// reused set objects, shared and changed element objects
+	emit("tcp 5 0 full S P T 300 A 1 300 1 5 13 0 65535 str - ; S P D 300 A 1 300 1 5 13 0 65535 str hex 616263 ; C 1 R P D 300 A 2 300 1 5 13 0 65535 str hex 6465 ; C 1 ; C 0 ;")
+	emit("udp 5 0 full S P T 300 A 1 300 2 5 13 0 65535 str - 6 2 0 2 u16 0 ; S P D 300 A 1 300 2 5 13 0 65535 str hex 616263646566 6 2 0 2 u16 4369 M 1 0 str hex 7879 M 1 1 u16 8738 AS 1 300 1 ; C 1 ; C 1 R P D 300 AS 2 300 1 ;")
+	emit("tcp 5 7 full S P T 300 A 1 300 1 5 13 0 65535 str - ; S P D 300 A 1 300 1 5 13 0 65535 str hex 616263 ; X - C 1 ; C 0 ; C 1 ; C 1 R P D 300 A 2 300 1 5 13 0 65535 str hex 6465 ;")
+	emit("udp 5 7 full S P T 300 A 1 300 1 5 13 0 65535 str - ; S P D 300 A 1 300 1 5 13 0 65535 str hex 616263 ; X 9 C 0 ; C 1 ;")
+	env.Count("shape/reuse-fixed")
+	m := n / 2
+	for i := 0; i < m; i++ {
+		emit(genC02Reuse(env))
+		emit(genC02Shared(env))
+	}
+	// template refresh (UDP, 1 s): each case takes a good second, so they run side by side
+	k := 8
+	if env.Thorough() {
+		k = 96
+	}
+	cases := make([]string, k)
+	for i := range cases {
+		cases[i] = genC02Refresh(env)
+	}
+	obs := make([]string, k)
+	for lo := 0; lo < k; lo += 16 {
+		hi := lo + 16
+		if hi > k {
+			hi = k
+		}
+		var wg sync.WaitGroup
+		for i := lo; i < hi; i++ {
+			wg.Add(1)
+			go func(i int) {
+				defer wg.Done()
+				obs[i] = runHist(strings.Fields(cases[i]))
+			}(i)
+		}
+		wg.Wait()
+	}
+	for i := range cases {
+		env.Emit("C02 "+cases[i], obs[i])
+	}
 }
